@@ -586,12 +586,12 @@ class ExprMixin(object):
         return V(mkS(r), parse_spec('str'))
 
     # ------------------------------------------------------------------ attribute access
-    def resolve_attr_static(self, classes, name):
+    def resolve_attr_static(self, classes, name, exact=False):
         """How do the given classes (and all their registered subclasses) resolve attribute `name`?
         Returns ('field',None) | ('property', prop) | ('method', func) | ('classattr', value) | mixed -> error."""
         kinds = {}
         for c in classes:
-            for d in UNIVERSE.subclasses(c) or [c]:
+            for d in ([c] if exact else (UNIVERSE.subclasses(c) or [c])):
                 try:
                     a = inspect.getattr_static(d, name)
                 except AttributeError:
@@ -645,7 +645,7 @@ class ExprMixin(object):
             return Bound(base, None, name)
         classes = self.static_classes(base)
         if classes:
-            kinds = self.resolve_attr_static(classes, name)
+            kinds = self.resolve_attr_static(classes, name, exact=bool(h.exact))
             if h.opt:
                 self.raise_exit(st, AttributeError, Val.is_N(base.t), line)
             if len(kinds) == 1:
@@ -653,6 +653,8 @@ class ExprMixin(object):
                 return self.getattr_kind(st, base, name, kind, a, classes, line)
             # dispatch on the dynamic class
             items = list(kinds.items())
+            if all(k[0] == 'method' for k, _ in items):
+                return Bound(base, ('dyn', [(k[1], ds) for k, ds in items]), name)
 
             def rec(s, i):
                 (kind, a), ds = items[i]
